@@ -1,7 +1,792 @@
-//! C04 — not built yet.
+//! C04 — the fixed file is exactly the fixed tree; templated code is untouched.
+//!
+//! For every generated input the real `lint_parsed(.., fix = true)` is run with the fix-loop hook
+//! installed; the hook's `End` event gives the linter's final tree. Recorded: the `TemplatedFile`
+//! (source, templated text, raw slices), the final tree with positions, the real patch list and the
+//! real `fix_string()`. Emitted:
+//!   * group `tree`    — the Gallina `iter_patches` + `fix_string` on the recorded tree must give the
+//!                       recorded patch list and fixed text;
+//!   * group `patches` — the Gallina `fix_string_so` on arbitrary patch lists / source-only slices
+//!                       must give what the real `LintedFile::fix_string` returns;
+//!   * direct          — untemplated: fixed text == raw of the final tree; placeholder templating:
+//!                       placeholders of the fixed source == placeholders of the source (same, in
+//!                       order) and re-rendering the fixed source gives the raw of the final tree;
+//!   * hypothesis monitors for the premises of the theorems.
+use std::cell::RefCell;
+use std::rc::Rc;
+
+use serde_json::{Value, json};
+use sqruff_lib::core::config::FluffConfig;
+use sqruff_lib::core::linter::core::{Linter, verif_hook};
+use sqruff_lib::core::linter::linted_file::LintedFile;
+use sqruff_lib_core::parser::segments::base::{ErasedSegment, Tables};
+use sqruff_lib_core::parser::segments::fix::FixPatch;
+use sqruff_lib_core::dialects::syntax::SyntaxKind;
+use sqruff_lib_core::templaters::base::{RawFileSlice, TemplatedFile, TemplatedFileSlice};
+
 use crate::common::*;
 
-pub fn main(_args: &Args) {
-    eprintln!("c04: not built yet");
-    std::process::exit(2);
+pub const RULESETS: &[&str] = &[
+    "all",
+    "core",
+    "LT01,LT02,LT03,LT04,LT05,LT06,LT07,LT08,LT09,LT10,LT11,LT12,LT13",
+    "CP01,CP02,CP03,CP04,CP05",
+    "AL01,AL02,AL05,AL07,AL09,ST01,ST02,ST03,ST05,ST06,ST08",
+    "LT01,LT02,CP01,AL01",
+    "CV01,CV02,CV03,CV04,CV05,CV06,CV07,CV10,CV11,RF03,RF06,ST07,ST09",
+    "LT01",
+    "LT02,LT12,CP01",
+];
+
+#[derive(Clone)]
+pub struct Templ {
+    pub style: String,
+    pub params: Vec<(String, String)>,
+}
+
+pub struct Item {
+    pub cls: &'static str,
+    pub dialect: String,
+    pub rules: String,
+    pub sql: String,
+    pub templ: Option<Templ>,
+}
+
+pub fn cfg_text(dialect: &str, rules: &str, templ: Option<&Templ>) -> String {
+    let mut s = format!("[sqruff]\ndialect = {}\nrules = {}\n", dialect, rules);
+    if let Some(t) = templ {
+        s.push_str("templater = placeholder\n\n[sqruff:templater:placeholder]\n");
+        s.push_str(&format!("param_style = {}\n", t.style));
+        for (k, v) in &t.params {
+            s.push_str(&format!("{} = {}\n", k, v));
+        }
+    }
+    s
+}
+pub fn mk_linter(dialect: &str, rules: &str, templ: Option<&Templ>) -> Linter {
+    Linter::new(FluffConfig::from_source(&cfg_text(dialect, rules, templ), None), None, None, true)
+}
+pub fn item_json(it: &Item) -> Value {
+    json!({"kind":"file","cls":it.cls,"dialect":it.dialect,"rules":it.rules,"sql":it.sql,
+        "templ": it.templ.as_ref().map(|t| json!({"style":t.style,"params":t.params}))})
+}
+pub fn item_from_json(v: &Value) -> Item {
+    let templ = if v["templ"].is_object() {
+        Some(Templ {
+            style: v["templ"]["style"].as_str().unwrap().to_string(),
+            params: v["templ"]["params"].as_array().unwrap().iter().map(|p| (p[0].as_str().unwrap().to_string(), p[1].as_str().unwrap().to_string())).collect(),
+        })
+    } else {
+        None
+    };
+    Item { cls: "replay", dialect: v["dialect"].as_str().unwrap().into(), rules: v["rules"].as_str().unwrap().into(), sql: v["sql"].as_str().unwrap().into(), templ }
+}
+
+// ---------------------------------------------------------------- generators
+fn is_ident(b: u8) -> bool {
+    b.is_ascii_alphanumeric() || b == b'_'
+}
+
+/// Layout / case perturbation of a corpus file (keeps the token sequence mostly intact).
+pub fn perturb(rng: &mut Rng, text: &str) -> String {
+    if !text.is_ascii() {
+        return text.to_string();
+    }
+    let b = text.as_bytes();
+    let mut out = String::with_capacity(b.len() + 32);
+    let mut i = 0;
+    let mut in_str = false;
+    while i < b.len() {
+        let c = b[i];
+        if c == b'\'' {
+            in_str = !in_str;
+        }
+        if in_str {
+            out.push(c as char);
+            i += 1;
+            continue;
+        }
+        if c == b' ' && rng.chance(1, 6) {
+            out.push_str(["  ", "   ", " \n", "\n  ", " "][rng.below(5)]);
+        } else if c == b',' && rng.chance(1, 3) {
+            out.push_str([" ,", ",  ", ", ", ","][rng.below(4)]);
+            if i + 1 < b.len() && b[i + 1] == b' ' && rng.chance(1, 2) {
+                i += 1;
+            }
+        } else if c == b'\n' && rng.chance(1, 8) {
+            out.push_str(["  \n", "\n\n\n", "\n    ", " "][rng.below(4)]);
+        } else if c.is_ascii_alphabetic() && (i == 0 || !is_ident(b[i - 1])) {
+            let mut j = i;
+            while j < b.len() && is_ident(b[j]) {
+                j += 1;
+            }
+            let w = &text[i..j];
+            match rng.below(8) {
+                0 => out.push_str(&w.to_ascii_lowercase()),
+                1 => out.push_str(&w.to_ascii_uppercase()),
+                2 => {
+                    let mut cs = w.to_ascii_lowercase();
+                    if let Some(f) = cs.get_mut(0..1) {
+                        f.make_ascii_uppercase();
+                    }
+                    out.push_str(&cs)
+                }
+                _ => out.push_str(w),
+            }
+            i = j;
+            continue;
+        } else if (c == b'=' || c == b'+') && rng.chance(1, 3) {
+            out.push(c as char);
+            if i + 1 < b.len() && b[i + 1] == b' ' {
+                i += 1;
+            }
+        } else {
+            out.push(c as char);
+        }
+        i += 1;
+    }
+    match rng.below(6) {
+        0 => {
+            while out.ends_with('\n') {
+                out.pop();
+            }
+        }
+        1 => out.push_str("\n\n"),
+        2 => out.push_str("  "),
+        _ => {}
+    }
+    out
+}
+
+const STYLES: &[&str] = &["colon", "colon_nospaces", "numeric_colon", "pyformat", "dollar", "question_mark", "numeric_dollar", "percent", "ampersand", "flyway_var"];
+
+/// Replace some literals (integers, simple quoted strings) of `text` by placeholders of `style`,
+/// each placeholder standing as its own token; the parameter value is the literal's text, so the
+/// replacement is shorter, equal or longer than the placeholder depending on the drawn name.
+pub fn templatise(rng: &mut Rng, text: &str, style: &str) -> Option<(String, Templ)> {
+    if !text.is_ascii() {
+        return None;
+    }
+    let b = text.as_bytes();
+    let mut out = String::new();
+    let mut params: Vec<(String, String)> = vec![];
+    let mut i = 0;
+    let mut n = 0usize;
+    let positional = matches!(style, "question_mark" | "percent");
+    // positional styles number every match, also those already in the file
+    let mut in_comment = false;
+    while i < b.len() {
+        let c = b[i];
+        if c == b'-' && i + 1 < b.len() && b[i + 1] == b'-' {
+            in_comment = true;
+        }
+        if c == b'\n' {
+            in_comment = false;
+        }
+        if in_comment {
+            out.push(c as char);
+            i += 1;
+            continue;
+        }
+        let prev_ok = i == 0 || matches!(b[i - 1], b' ' | b'\n' | b'(' | b',' | b'=' | b'<' | b'>');
+        let mut lit: Option<usize> = None;
+        if prev_ok && c.is_ascii_digit() {
+            let mut j = i;
+            while j < b.len() && b[j].is_ascii_digit() {
+                j += 1;
+            }
+            if (j == b.len() || matches!(b[j], b' ' | b'\n' | b')' | b',' | b';')) && j - i <= 9 && (b[i] != b'0' || j - i == 1) {
+                lit = Some(j);
+            }
+        } else if prev_ok && c == b'\'' {
+            let mut j = i + 1;
+            while j < b.len() && (is_ident(b[j])) {
+                j += 1;
+            }
+            if j < b.len() && b[j] == b'\'' && j > i + 1 && (j + 1 == b.len() || matches!(b[j + 1], b' ' | b'\n' | b')' | b',' | b';')) {
+                lit = Some(j + 1);
+            }
+        } else if c == b'\'' {
+            // skip other quoted strings untouched
+            let mut j = i + 1;
+            while j < b.len() && b[j] != b'\'' && b[j] != b'\n' {
+                j += 1;
+            }
+            let j = (j + 1).min(b.len());
+            out.push_str(&text[i..j]);
+            i = j;
+            continue;
+        }
+        if let Some(j) = lit {
+            if rng.chance(2, 3) {
+                n += 1;
+                let value = text[i..j].to_string();
+                let name = if positional || style.starts_with("numeric") {
+                    format!("{}", n)
+                } else {
+                    match rng.below(3) {
+                        0 => format!("p{}", n),
+                        1 => format!("param_{}", n),
+                        _ => format!("a_rather_long_parameter_name_{}", n),
+                    }
+                };
+                let ph = match style {
+                    "colon" | "colon_nospaces" | "numeric_colon" => format!(":{}", name),
+                    "pyformat" => format!("%({})s", name),
+                    "dollar" | "numeric_dollar" => {
+                        if rng.chance(1, 2) { format!("${}", name) } else { format!("${{{}}}", name) }
+                    }
+                    "question_mark" => "?".to_string(),
+                    "percent" => "%s".to_string(),
+                    "ampersand" => {
+                        if rng.chance(1, 2) { format!("&{}", name) } else { format!("&{{{}}}", name) }
+                    }
+                    "flyway_var" => format!("${{v:{}}}", name),
+                    _ => return None,
+                };
+                let key = if style == "flyway_var" { format!("v:{}", name) } else { name };
+                if !positional {
+                    params.push((key, value));
+                } else {
+                    params.push((key, value));
+                }
+                out.push_str(&ph);
+                i = j;
+                continue;
+            }
+            out.push_str(&text[i..j]);
+            i = j;
+            continue;
+        }
+        out.push(c as char);
+        i += 1;
+    }
+    if n == 0 {
+        return None;
+    }
+    if positional {
+        // pre-existing '?' / '%s' shift the numbering: give up naming, values default to the index
+        let marker = if style == "question_mark" { "?" } else { "%s" };
+        if text.contains(marker) {
+            params.clear();
+        }
+    }
+    Some((out, Templ { style: style.to_string(), params }))
+}
+
+// ---------------------------------------------------------------- recording
+/// Text as a Gallina term: `(S "...")` (Coq string literal, decoded to bytes in Corr/C04.v) when the
+/// text has no control characters other than tab/newline, else the explicit byte list.
+fn g_text(s: &str) -> String {
+    if s.bytes().all(|b| b >= 32 && b != 127 || b == 9 || b == 10) {
+        format!("(S \"{}\")", s.replace('"', "\"\""))
+    } else {
+        g_str(s)
+    }
+}
+fn tree_g(seg: &ErasedSegment, ok: &mut bool, nodes: &mut usize) -> String {
+    *nodes += 1;
+    let Some(pm) = seg.get_position_marker() else {
+        *ok = false;
+        return "(L false [] 0 0 0 0)".into();
+    };
+    let strip = matches!(seg.get_type(), SyntaxKind::EndOfFile | SyntaxKind::Indent | SyntaxKind::Dedent | SyntaxKind::Implicit);
+    let p = format!("{} {} {} {}", pm.source_slice.start, pm.source_slice.end, pm.templated_slice.start, pm.templated_slice.end);
+    if !seg.get_source_fixes().is_empty() {
+        *ok = false;
+    }
+    if seg.segments().is_empty() {
+        format!("(L {} {} {})", g_bool(strip), g_text(seg.raw()), p)
+    } else {
+        let cs = g_list(seg.segments().iter().map(|c| tree_g(c, ok, nodes)));
+        format!("(Nd {} {} {})", g_bool(strip), p, cs)
+    }
+}
+
+fn patches_g(ps: &[(usize, usize, String)]) -> String {
+    g_list(ps.iter().map(|(s, e, r)| g_tuple(&[g_n(*s), g_n(*e), g_text(r)])))
+}
+
+/// (wf_ranges, sorted_disjoint) of a real patch list — the Coq predicates of Patch/Proofs.v.
+fn patch_preds(ps: &[(usize, usize, String)]) -> (bool, bool) {
+    let wf = ps.iter().all(|(s, e, _)| s <= e);
+    let mut sd = wf;
+    let mut idx = 0usize;
+    for (i, (s, e, _)) in ps.iter().enumerate() {
+        if *s < idx {
+            sd = false;
+        }
+        if ps[i + 1..].iter().any(|(s2, e2, r2)| s2 == s && e2 == e && *r2 == ps[i].2) {
+            sd = false;
+        }
+        idx = *e;
+    }
+    (wf, sd)
+}
+
+/// usize subtractions of iter_patches that wrap when negative (modelled as `<>`); follows only the
+/// branches iter_patches takes (unchanged and literal nodes are not descended into).
+fn underflow_free(seg: &ErasedSegment, tpl: &str) -> bool {
+    let Some(pos) = seg.get_position_marker() else { return true };
+    if tpl.get(pos.templated_slice.clone()).map(|t| t == seg.raw().as_str()).unwrap_or(false) {
+        return true;
+    }
+    if pos.is_literal() || seg.segments().is_empty() {
+        return true;
+    }
+    let mut tidx = pos.templated_slice.start;
+    let mut segs = seg.segments();
+    while !segs.is_empty() && matches!(segs.last().unwrap().get_type(), SyntaxKind::EndOfFile | SyntaxKind::Indent | SyntaxKind::Dedent | SyntaxKind::Implicit) {
+        segs = &segs[..segs.len() - 1];
+    }
+    for c in segs {
+        let Some(pm) = c.get_position_marker() else { return true };
+        if !c.raw().is_empty() && pm.source_slice.is_empty() && pm.templated_slice.is_empty() {
+            continue;
+        }
+        if pm.templated_slice.start < tidx {
+            return false;
+        }
+        if !underflow_free(c, tpl) {
+            return false;
+        }
+        tidx = pm.templated_slice.end;
+    }
+    pos.templated_slice.end >= tidx
+}
+
+fn placeholders(tf: &TemplatedFile) -> Vec<String> {
+    tf.verif_raw_sliced().into_iter().filter(|(_, t, _)| t == "templated").map(|(i, _, l)| tf.source_str[i..i + l].to_string()).collect()
+}
+
+/// Generator restriction for templated inputs: every placeholder is its own token (separators on
+/// both sides in the source, non-empty value). Anything else is C15 territory.
+pub fn own_token(tf: &TemplatedFile) -> bool {
+    let sb = tf.source_str.as_bytes();
+    let sep = |b: u8| matches!(b, b' ' | b'\n' | b'\t' | b'(' | b')' | b',' | b';' | b'=' | b'<' | b'>');
+    tf.sliced_file.iter().filter(|t| t.slice_type == "templated").all(|t| {
+        let (a, b) = (t.source_slice.start, t.source_slice.end);
+        (a == 0 || sep(sb[a - 1])) && (b >= sb.len() || sep(sb[b])) && !t.templated_slice.is_empty()
+    })
+}
+
+pub struct FixRun {
+    pub tf: TemplatedFile,
+    pub start: Option<ErasedSegment>,
+    pub end: Option<ErasedSegment>,
+    pub patches: Vec<(usize, usize, String)>,
+    pub fixed: String,
+}
+
+pub enum RunErr {
+    Parse(String),
+    Loop(String),
+    Patches(String),
+    NoTree,
+    NotOwnToken,
+}
+
+/// Run the real pipeline once: parse, lint_parsed(fix = true) with the hook, fix_string.
+pub fn fix_run(linter: &Linter, sql: &str) -> Result<FixRun, RunErr> {
+    let tables = Tables::default();
+    let parsed = match catch(|| linter.parse_string(&tables, sql, None)) {
+        Ok(Ok(p)) => p,
+        Ok(Err(e)) => return Err(RunErr::Parse(format!("{:?}", e.value))),
+        Err(m) => return Err(RunErr::Parse(m)),
+    };
+    if parsed.tree.is_none() {
+        return Err(RunErr::NoTree);
+    }
+    let tf = parsed.templated_file.clone();
+    if !own_token(&tf) {
+        return Err(RunErr::NotOwnToken);
+    }
+    let trees: Rc<RefCell<(Option<ErasedSegment>, Option<ErasedSegment>)>> = Rc::new(RefCell::new((None, None)));
+    let t2 = trees.clone();
+    verif_hook::FIX_HOOK.with(|h| {
+        *h.borrow_mut() = Some(Box::new(move |ev| match ev {
+            verif_hook::FixEvent::Start { tree, .. } => t2.borrow_mut().0 = Some(tree.clone()),
+            verif_hook::FixEvent::End { tree } => t2.borrow_mut().1 = Some(tree.clone()),
+            _ => {}
+        }))
+    });
+    let r = catch(|| linter.lint_parsed(&tables, parsed, true));
+    verif_hook::FIX_HOOK.with(|h| *h.borrow_mut() = None);
+    let (start, end) = {
+        let mut b = trees.borrow_mut();
+        (b.0.take(), b.1.take())
+    };
+    let linted = match r {
+        Ok(l) => l,
+        Err(m) => {
+            return if end.is_some() { Err(RunErr::Patches(m)) } else { Err(RunErr::Loop(m)) };
+        }
+    };
+    let patches: Vec<(usize, usize, String)> = linted.patches.iter().map(|p| (p.source_slice.start, p.source_slice.end, p.fixed_raw.to_string())).collect();
+    let fixed = match catch(|| linted.fix_string()) {
+        Ok(s) => s,
+        Err(m) => return Err(RunErr::Patches(format!("fix_string: {}", m))),
+    };
+    Ok(FixRun { tf, start, end, patches, fixed })
+}
+
+const TREE_CASE_MAX: usize = 2500;
+
+type Linters = std::collections::HashMap<String, Linter>;
+
+fn run_file(ls: &mut Linters, it: &Item, out: &mut Buf) {
+    let input = item_json(it);
+    let key = cfg_text(&it.dialect, &it.rules, it.templ.as_ref());
+    if it.templ.is_some() {
+        // parameter sets differ per file: do not cache
+        ls.remove(&key);
+    }
+    let lint = match catch(|| mk_linter(&it.dialect, &it.rules, it.templ.as_ref())) {
+        Ok(l) => l,
+        Err(_) => {
+            out.count("config_rejected", 1);
+            return;
+        }
+    };
+    let linter: &Linter = if it.templ.is_some() { &lint } else { ls.entry(key).or_insert(lint) };
+    out.count("fix_runs", 1);
+    let templated = it.templ.is_some();
+    let run = match fix_run(linter, &it.sql) {
+        Ok(r) => r,
+        Err(RunErr::Parse(_)) => {
+            out.count(if templated { "skipped_lex_parse_panic_templated" } else { "skipped_lex_parse_panic" }, 1);
+            return;
+        }
+        Err(RunErr::NoTree) => {
+            out.count("skipped_no_tree", 1);
+            return;
+        }
+        Err(RunErr::NotOwnToken) => {
+            out.count("skipped_placeholder_not_own_token (C15 territory)", 1);
+            return;
+        }
+        Err(RunErr::Loop(m)) => {
+            out.count(if templated { "skipped_rule_panic_templated" } else { "skipped_rule_panic" }, 1);
+            out.count(&format!("loop_panic: {}", trunc(m.lines().next().unwrap_or(""), 70)), 1);
+            return;
+        }
+        Err(RunErr::Patches(m)) => {
+            out.direct(it.cls, false, &format!("c04-patch-panic-{}", it.cls), &format!("iter_patches/fix_string panicked after the fix loop finished: {}", m), input);
+            return;
+        }
+    };
+    let Some(end) = run.end.as_ref() else {
+        out.count("no_end_event", 1);
+        return;
+    };
+    let tf = &run.tf;
+    let src = tf.source_str.clone();
+    let tpl = tf.templated_str.clone().unwrap_or_default();
+    let tree_raw = end.raw().to_string();
+    let changed = run.start.as_ref().map(|s| s.raw() != end.raw()).unwrap_or(false);
+    if changed {
+        out.count("runs_with_changed_tree", 1);
+    }
+    if !run.patches.is_empty() {
+        out.count("runs_with_patches", 1);
+    }
+    if run.patches.len() > 1 {
+        out.count("runs_with_several_patches", 1);
+    }
+
+    // ---- precondition owned by C01/C02: the tree the loop starts from reads as the templated text
+    let lossless = run.start.as_ref().map(|s| s.raw().as_str() == tpl).unwrap_or(false);
+    if !lossless {
+        out.count(if templated { "skipped_lossy_lex_templated (C01/C15: start tree raw != templated text)" } else { "skipped_lossy_lex (C01: start tree raw != source)" }, 1);
+        return;
+    }
+
+    // ---- hypothesis monitors
+    let (wf, sd) = patch_preds(&run.patches);
+    let mut ok_tree = true;
+    let mut nodes = 0usize;
+    let tree_term = tree_g(end, &mut ok_tree, &mut nodes);
+    out.hyp("final tree: every segment has a position marker and no source fixes", "blocking", ok_tree, json!({"input":input}));
+    out.hyp("iter_patches: no usize underflow in start_diff/end_diff on the branches taken (would panic with overflow checks)", "diagnostic", underflow_free(end, &tpl), json!({"input":input}));
+    if !templated {
+        out.hyp("wf_ranges(real patches), untemplated", "blocking", wf, json!({"input":input,"patches":run.patches}));
+        let pm = end.get_position_marker();
+        let spans = pm.map(|p| p.source_slice == (0..src.len()) && p.templated_slice == (0..tpl.len())).unwrap_or(false) && tpl == src;
+        out.hyp("untemplated: root of the final tree spans the file and templated text = source (premise of C04_untemplated)", "blocking", spans, json!({"input":input}));
+    } else {
+        out.hyp("templated: real patches have well-formed ranges (premise of C04_fix_string_spec)", "diagnostic", wf, json!({"input":input,"patches":run.patches}));
+        out.hyp("templated: patches of the final tree are sorted and disjoint (premise of C04_templated_keeps_partial)", "diagnostic", sd, json!({"input":input,"patches":run.patches}));
+    }
+
+    // ---- direct observation of the property
+    if !templated {
+        let ok = run.fixed == tree_raw;
+        let key = format!("c04-untemplated-{:016x}", fnv(&format!("{}|{}|{}", it.dialect, it.rules, it.sql)));
+        out.direct(it.cls, ok, &key, &format!("fixed text differs from the final tree's raw: fixed={:?} tree={:?}", trunc(&run.fixed, 300), trunc(&tree_raw, 300)), input.clone());
+    } else {
+        let ph_src = placeholders(tf);
+        if ph_src.is_empty() {
+            out.count("templated_without_placeholder", 1);
+        } else {
+            out.count("templated_runs_with_placeholders", 1);
+            if changed {
+                out.count("templated_runs_changed", 1);
+            }
+        }
+        let rendered = catch(|| linter.render_string(&run.fixed, "<string>".into(), linter.config()));
+        match rendered {
+            Ok(Ok(r)) => {
+                let ph_fixed = placeholders(&r.templated_file);
+                let key = format!("c04-templated-{:016x}", fnv(&format!("{}|{}|{}|{}", it.dialect, it.rules, it.sql, cfg_text("", "", it.templ.as_ref()))));
+                let ok1 = ph_fixed == ph_src;
+                out.direct("templated-placeholders", ok1, &key, &format!("placeholders changed: source {:?} fixed {:?}; fixed text {:?}", ph_src, ph_fixed, trunc(&run.fixed, 300)), input.clone());
+                let re = r.templated_file.templated_str.clone().unwrap_or_default();
+                let ok2 = re == tree_raw;
+                out.direct("templated-rerender", ok2, &key, &format!("re-rendered fixed source differs from the final tree's raw: rerender={:?} tree={:?} fixed={:?}", trunc(&re, 300), trunc(&tree_raw, 300), trunc(&run.fixed, 300)), input.clone());
+            }
+            _ => {
+                out.count("rerender_failed", 1);
+            }
+        }
+    }
+
+    // ---- correspondence case
+    if !ok_tree {
+        return;
+    }
+    if run.patches.is_empty() && fnv(&it.sql) % 4 != 0 {
+        out.count("tree_case_sampled_out (no patch: 1 in 4 kept)", 1);
+        return;
+    }
+    if src.len() > TREE_CASE_MAX {
+        out.count("tree_case_skipped_large", 1);
+        return;
+    }
+    let raws: Vec<(usize, bool)> = tf.verif_raw_sliced().into_iter().map(|(i, t, _)| (i, t == "literal")).collect();
+    let args = g_tuple(&[
+        g_text(&src),
+        if tpl == src { "None".to_string() } else { g_opt(Some(g_text(&tpl))) },
+        g_list(raws.iter().map(|(i, l)| g_tuple(&[g_n(*i), g_bool(*l)]))),
+        tree_term,
+    ]);
+    let exp = g_tuple(&[patches_g(&run.patches), g_text(&run.fixed)]);
+    let sample = json!({"input":input,"n_nodes":nodes,"patches":run.patches.iter().map(|(s,e,r)| json!([s,e,trunc(r,80)])).collect::<Vec<_>>(),"fixed":trunc(&run.fixed,200)});
+    out.case("tree", it.cls, !run.patches.is_empty(), args, exp, sample);
+}
+
+pub fn fnv(s: &str) -> u64 {
+    let mut h = 0xcbf29ce484222325u64;
+    for b in s.as_bytes() {
+        h ^= *b as u64;
+        h = h.wrapping_mul(0x100000001b3);
+    }
+    h
+}
+
+// ---------------------------------------------------------------- group `patches`
+struct PItem {
+    src: String,
+    /// source-only comment slices (start, end), sorted, disjoint
+    so: Vec<(usize, usize)>,
+    patches: Vec<(usize, usize, String)>,
+}
+
+fn gen_pitem(rng: &mut Rng) -> PItem {
+    let n = rng.range(0, 30);
+    let src: String = (0..n).map(|_| *rng.pick(&[b'a', b'b', b'c', b' ', b'\n', b'x', b'1', b',']) as char).collect();
+    let mut so = vec![];
+    if rng.chance(1, 2) && n >= 4 {
+        let k = rng.range(1, 3);
+        let mut cuts: Vec<usize> = (0..2 * k).map(|_| rng.below(n + 1)).collect();
+        cuts.sort();
+        for w in cuts.chunks(2) {
+            if w[0] < w[1] && so.last().map(|l: &(usize, usize)| l.1 <= w[0]).unwrap_or(true) {
+                so.push((w[0], w[1]));
+            }
+        }
+    }
+    let k = rng.range(0, 6);
+    let mut patches: Vec<(usize, usize, String)> = vec![];
+    let sorted_mode = rng.chance(1, 3);
+    let mut cursor = 0usize;
+    for _ in 0..k {
+        let (s, e) = if sorted_mode {
+            let s = (cursor + rng.below(4)).min(n);
+            let e = (s + rng.below(4)).min(n);
+            cursor = e;
+            (s, e)
+        } else if !patches.is_empty() && rng.chance(1, 5) {
+            let p = rng.pick(&patches).clone();
+            (p.0, p.1)
+        } else if !so.is_empty() && rng.chance(1, 4) {
+            *rng.pick(&so)
+        } else {
+            let s = rng.below(n + 1);
+            let e = (s + rng.below(5)).min(n);
+            (s, e)
+        };
+        let raw: String = (0..rng.below(4)).map(|_| *rng.pick(&[b'X', b'Y', b'Z', b' ']) as char).collect();
+        patches.push((s, e, raw));
+    }
+    PItem { src, so, patches }
+}
+
+fn pitem_json(p: &PItem) -> Value {
+    json!({"kind":"patches","src":p.src,"so":p.so,"patches":p.patches})
+}
+fn pitem_from_json(v: &Value) -> PItem {
+    PItem {
+        src: v["src"].as_str().unwrap().to_string(),
+        so: v["so"].as_array().unwrap().iter().map(|x| (x[0].as_u64().unwrap() as usize, x[1].as_u64().unwrap() as usize)).collect(),
+        patches: v["patches"].as_array().unwrap().iter().map(|x| (x[0].as_u64().unwrap() as usize, x[1].as_u64().unwrap() as usize, x[2].as_str().unwrap().to_string())).collect(),
+    }
+}
+
+fn run_patches(_: &mut (), p: &PItem, out: &mut Buf) {
+    let input = pitem_json(p);
+    // TemplatedFile with "comment" raw slices for the source-only ranges
+    let tf = if p.so.is_empty() {
+        TemplatedFile::from(p.src.clone())
+    } else {
+        let mut sliced = vec![];
+        let mut raws = vec![];
+        let mut tpl = String::new();
+        let mut pos = 0usize;
+        let mut lit = |a: usize, b: usize, tpl: &mut String, sliced: &mut Vec<TemplatedFileSlice>, raws: &mut Vec<RawFileSlice>| {
+            if a < b {
+                sliced.push(TemplatedFileSlice::new("literal", a..b, tpl.len()..tpl.len() + (b - a)));
+                raws.push(RawFileSlice::new(p.src[a..b].to_string(), "literal".into(), a, None, None));
+                tpl.push_str(&p.src[a..b]);
+            }
+        };
+        for (a, b) in &p.so {
+            lit(pos, *a, &mut tpl, &mut sliced, &mut raws);
+            sliced.push(TemplatedFileSlice::new("comment", *a..*b, tpl.len()..tpl.len()));
+            raws.push(RawFileSlice::new(p.src[*a..*b].to_string(), "comment".into(), *a, None, None));
+            pos = *b;
+        }
+        lit(pos, p.src.len(), &mut tpl, &mut sliced, &mut raws);
+        match catch(|| TemplatedFile::new(p.src.clone(), "<p>".into(), Some(tpl), Some(sliced), Some(raws))) {
+            Ok(Ok(tf)) => tf,
+            _ => {
+                out.count("patches_tf_rejected", 1);
+                return;
+            }
+        }
+    };
+    let patches: Vec<FixPatch> = p.patches.iter().map(|(s, e, r)| FixPatch::new(0..0, r.as_str().into(), *s..*e, String::new(), String::new())).collect();
+    let lf = LintedFile { path: String::new(), patches, templated_file: tf, violations: vec![], ignore_mask: None };
+    let real = match catch(|| lf.fix_string()) {
+        Ok(s) => s,
+        Err(_) => {
+            out.count("patches_real_panicked", 1);
+            return;
+        }
+    };
+    let (wf, sd) = patch_preds(&p.patches);
+    out.count(if sd { "patches_sorted_disjoint" } else if wf { "patches_wf_unsorted_or_overlapping" } else { "patches_ill_formed" }, 1);
+    if !p.so.is_empty() {
+        out.count("patches_with_source_only_slices", 1);
+    }
+    let args = g_tuple(&[g_text(&p.src), g_list(p.so.iter().map(|(a, b)| g_tuple(&[g_n(*a), g_n(*b)]))), patches_g(&p.patches)]);
+    out.case("patches", if p.so.is_empty() { "random-patches" } else { "random-patches-source-only" }, !p.patches.is_empty(), args, g_text(&real), json!({"input":input,"real":real}));
+}
+
+// ---------------------------------------------------------------- main
+pub fn main(args: &Args) {
+    silence_panics();
+    let mut out = Out::new(&args.out);
+    let mut rng = Rng::new(args.seed);
+    let mut items: Vec<Item> = vec![];
+    let mut pitems: Vec<PItem> = vec![];
+
+    if let Some(path) = args.flag("--replay-input") {
+        let v: Value = serde_json::from_str(&std::fs::read_to_string(path).unwrap()).unwrap();
+        let v = if v.get("input").is_some() { v["input"].clone() } else { v };
+        if v["kind"] == "patches" {
+            pitems.push(pitem_from_json(&v));
+        } else {
+            items.push(item_from_json(&v));
+        }
+    } else {
+        // regression corpus first
+        for (d, r, s, t) in [
+            ("ansi", "all", "SELECT a  from  tbl\n", None),
+            ("ansi", "LT01,CP01", "select  a,b FROM t where x=1", None),
+            ("ansi", "all", "SELECT a , b  from  t WHERE c = :p1\n", Some(("colon", vec![("p1", "1")]))),
+            ("ansi", "LT01,CP01", "select  a from t where x = :a_rather_long_parameter_name_1  and y =  :p2\n", Some(("colon", vec![("a_rather_long_parameter_name_1", "1"), ("p2", "'abcdefgh'")]))),
+            ("ansi", "all", "SELECT a  from  t WHERE c = ?  and d = ?\n", Some(("question_mark", vec![("1", "10"), ("2", "'x'")]))),
+            // fixed 9542ee4: AL02 inserts "AS " at the start of the alias node, LT02 an indent before it:
+            // two insertions at one source position, the second was lost
+            ("ansi", "all", "SELECT :a\n\n\n:b;\n", Some(("colon", vec![("a", "1"), ("b", "bar")]))),
+        ] {
+            items.push(Item {
+                cls: "regression",
+                dialect: d.into(),
+                rules: r.into(),
+                sql: s.into(),
+                templ: t.map(|(st, ps): (&str, Vec<(&str, &str)>)| Templ { style: st.into(), params: ps.into_iter().map(|(k, v)| (k.to_string(), v.to_string())).collect() }),
+            });
+        }
+        let corpus = corpus();
+        let snippets = rule_snippets();
+        let thorough = args.thorough();
+        // corpus x rule selections
+        for (i, f) in corpus.iter().enumerate() {
+            if f.text.len() > 20000 {
+                continue;
+            }
+            let nsel = if thorough { RULESETS.len() } else { 1 };
+            for k in 0..nsel {
+                let rules = RULESETS[(i + k) % RULESETS.len()];
+                items.push(Item { cls: "corpus", dialect: f.dialect.clone(), rules: rules.into(), sql: f.text.clone(), templ: None });
+            }
+        }
+        // perturbed corpus
+        let n_pert = if thorough { 6000 } else { 500 };
+        for _ in 0..n_pert {
+            let f = &corpus[rng.below(corpus.len())];
+            if f.text.len() > 6000 {
+                continue;
+            }
+            let rules = RULESETS[rng.below(RULESETS.len())];
+            let sql = perturb(&mut rng, &f.text);
+            items.push(Item { cls: "perturbed-corpus", dialect: f.dialect.clone(), rules: rules.into(), sql, templ: None });
+        }
+        // rule fixture snippets (pass/fail/fix strings), ansi, all rules and one random selection
+        for (i, (_, s)) in snippets.iter().enumerate() {
+            if s.len() > 4000 || (!thorough && i % 2 == 1) {
+                continue;
+            }
+            items.push(Item { cls: "rule-snippet", dialect: "ansi".into(), rules: "all".into(), sql: s.clone(), templ: None });
+            if thorough {
+                items.push(Item { cls: "rule-snippet", dialect: "ansi".into(), rules: RULESETS[rng.below(RULESETS.len())].into(), sql: s.clone(), templ: None });
+            }
+        }
+        // placeholder templating
+        let n_templ = if thorough { 8000 } else { 800 };
+        let mut made = 0;
+        let mut tries = 0;
+        while made < n_templ && tries < n_templ * 20 {
+            tries += 1;
+            let f = &corpus[rng.below(corpus.len())];
+            if f.text.len() > 5000 {
+                continue;
+            }
+            let style = STYLES[rng.below(STYLES.len())];
+            let base = if rng.chance(1, 2) { perturb(&mut rng, &f.text) } else { f.text.clone() };
+            if let Some((sql, templ)) = templatise(&mut rng, &base, style) {
+                let rules = RULESETS[rng.below(RULESETS.len())];
+                items.push(Item { cls: "templated-corpus", dialect: f.dialect.clone(), rules: rules.into(), sql, templ: Some(templ) });
+                made += 1;
+            }
+        }
+        let n_p = if thorough { 20000 } else { 2000 };
+        for _ in 0..n_p {
+            pitems.push(gen_pitem(&mut rng));
+        }
+    }
+    par_run(&mut out, &items, Linters::new, run_file);
+    par_run(&mut out, &pitems, || (), run_patches);
+    out.finish();
 }
